@@ -85,6 +85,24 @@ VF_E int* a4_begin(A4& a) { return a.begin(); }
 VF_E int* a4_end(A4& a) { return a.end(); }
 VF_E size_t a4_size(A4 const& a) { return a.size(); }
 VF_E bool a4_empty(A4 const& a) { return a.empty(); }
+VF_E int const* a4_cdata(A4 const& a) { return a.data(); }
+VF_E int const* a4_cfront(A4 const& a) { return &a.front(); }
+VF_E int const* a4_cback(A4 const& a) { return &a.back(); }
+VF_E int const* a4_begin_c(A4 const& a) { return a.begin(); }
+VF_E int const* a4_end_c(A4 const& a) { return a.end(); }
+VF_E int const* a4_cbegin(A4 const& a) { return a.cbegin(); }
+VF_E int const* a4_cend(A4 const& a) { return a.cend(); }
+VF_E int* a4_rbegin_base(A4& a) { return a.rbegin().base(); }
+VF_E int* a4_rend_base(A4& a) { return a.rend().base(); }
+VF_E int const* a4_crbegin_base(A4 const& a) { return a.crbegin().base(); }
+VF_E int const* a4_crend_base(A4 const& a) { return a.crend().base(); }
+VF_E int const* a4_rbegin_c_base(A4 const& a) { return a.rbegin().base(); }
+VF_E int const* a4_rend_c_base(A4 const& a) { return a.rend().base(); }
+VF_E size_t a4_max_size(A4 const& a) { return a.max_size(); }
+VF_E void a4_fill(A4& a, int const& v) { a.fill(v); }
+VF_E void a4_swap(A4& a, A4& b) { a.swap(b); }
+VF_E bool a4_eq(A4 const& a, A4 const& b) { return a == b; }
+VF_E bool a4_lt(A4 const& a, A4 const& b) { return a < b; }
 VF_E int* a0_begin(A0& a) { return a.begin(); }
 VF_E int* a0_end(A0& a) { return a.end(); }
 VF_E size_t a0_size(A0 const& a) { return a.size(); }
